@@ -147,6 +147,7 @@ def run(P, R):
             'is_loading_valid computes instance_loading as %s' % ' + '.join(inst))
 
     shared.pending_per_node(P, R, r2)
+    shared.pending_load_definition(P, R, r2)
 
     # ---------------------------------------------------------------- R3
     r3 = R.rule('R3', 'argument provenance', 'every placement passes a load-request map obtained from a '
@@ -234,7 +235,8 @@ def run(P, R):
             'Commander.next does not call application_job.before() before application_job.next()')
     pj = P.unit('ApplicationStartJobs.process_job')
     fm = factmap(pj)
-    pi = [c for c in own_nodes(pj.node) if isinstance(c, ast.Call) and call_text(c) == 'command.process.possible_identifiers']
+    pi = [c for c in own_nodes(pj.node) if isinstance(c, ast.Call) and isinstance(c.func, ast.Attribute)
+          and c.func.attr == 'possible_identifiers' and closed_text(pj, c.func.value) == 'command.process']
     ok = len(pi) == 1 and fm.has(pi[0], 'self.distribution == DistributionRules.ALL_INSTANCES', True)
     R.check(r4, ok, 'the program rule applies only to distributed applications', 'distribution|process-rule', pj.loc(),
             'process_job consults process.possible_identifiers() outside `distribution == ALL_INSTANCES`')
@@ -245,39 +247,7 @@ def run(P, R):
     R.check(r4, ok, 'a command added later follows the application selection when not distributed',
             'distribution|on_command_added', oc.loc(), 'on_command_added does not place under `distribution != '
             'ALL_INSTANCES`')
-    si = P.unit('ApplicationStartJobs.distribute_to_single_instance')
-    fm = factmap(si)
-    gi = [c for c in own_nodes(si.node) if isinstance(c, ast.Call) and call_text(c) == 'get_supvisors_instance']
-    # closed forms (sa.defuse): what is compared does not depend on the names of locals and comprehension binders
-    PJ = 'self.planned_jobs.values()'
-    ALL_CMDS = '[each(each(%s)) for _ in %s for _ in each(%s)]' % (PJ, PJ, PJ)
-    upd = [c for c in own_nodes(si.node) if isinstance(c, ast.Call) and isinstance(c.func, ast.Attribute)
-           and c.func.attr == 'update_identifier']
-    sel = closed_text(si, gi[0]) if len(gi) == 1 else '?'
-    ok = len(gi) == 1 and closed_text(si, gi[0].args[2]) == 'self.application.possible_identifiers()' and \
-        closed_text(si, gi[0].args[3]) == 'self.application.get_start_sequence_expected_load()' and \
-        len(upd) == 1 and closed_text(si, upd[0].args[0]) == sel and \
-        closed_text(si, upd[0].func.value) == 'each(%s)' % ALL_CMDS and \
-        any(isinstance(a, ast.Assign) and ast.unparse(a.targets[0]) == 'self.identifiers' and
-            closed_text(si, a.value) == '[%s]' % sel for a in own_nodes(si.node))
-    R.check(r4, ok, 'SINGLE_INSTANCE: one instance able to carry the whole sequence, given to all commands',
-            'distribution|single-instance', si.loc(), 'distribute_to_single_instance does not choose one identifier '
-            'among application.possible_identifiers() for the whole start-sequence load and give it to every command')
-    sn = P.unit('ApplicationStartJobs.distribute_to_single_node')
-    gn = [c for c in own_nodes(sn.node) if isinstance(c, ast.Call) and call_text(c) == 'get_node']
-    asg = [closed_text(sn, a.value) for a in own_nodes(sn.node) if isinstance(a, ast.Assign)
-           and ast.unparse(a.targets[0]) == 'self.identifiers']
-    node = closed_text(sn, gn[0]) if len(gn) == 1 else '?'
-    CAND = 'self.application.possible_node_identifiers()'
-    ok = len(gn) == 1 and closed_text(sn, gn[0].args[2]) == CAND and \
-        closed_text(sn, gn[0].args[3]) == 'self.application.get_start_sequence_expected_load()' and \
-        asg == ['[each(%s) for _ in %s if each(%s) in list(self.supvisors.mapper.nodes.get(%s, []))]' %
-                (CAND, CAND, CAND, node)]
-    defs = {'self.identifiers': asg}
-    R.check(r4, ok, 'SINGLE_NODE: the selection is the application candidates that belong to the chosen node',
-            'distribution|single-node', sn.loc(), 'distribute_to_single_node does not restrict self.identifiers to the '
-            'application node candidates of the node chosen by get_node for the whole load (%s)' %
-            {k: defs.get(k) for k in ('self.identifiers',)})
+    shared.distribution_candidates(P, R, r4)
     shared.application_candidates(P, R, r4)
     shared.enum_classes(P, R, r4, only=('starting_strategy', 'distribution'))
     R.assume('Optimality over numeric load tables is NOT decided; only the ordering structure of each strategy.')
